@@ -1134,7 +1134,10 @@ def _simplify_function_min(call: HplFunctionCall) -> HplExpression:
 def _obviously_different(a: HplExpression, b: HplExpression) -> bool:
     # assume arguments have been simplified
     if _obvious_negatives(a, b):
-        return True
+        # `p` and `not p` never have the same value; `x` and `-x` do for x = 0
+        neg = a if isinstance(a, HplUnaryOperator) and a.operand == b else b
+        assert isinstance(neg, HplUnaryOperator)
+        return neg.operator.is_not
     if isinstance(a, HplBinaryOperator):
         op: BinaryOperatorDefinition = a.operator
         # the first operand can be a literal if the operator is
@@ -1143,21 +1146,8 @@ def _obviously_different(a: HplExpression, b: HplExpression) -> bool:
             if a.operand1 == b and isinstance(a.operand2, HplLiteral):
                 assert a.operand2.value != 0  # due to simplification
                 return True
-        if op.is_times:
-            if a.operand1 == b and isinstance(a.operand2, HplLiteral):
-                assert a.operand2.value != 0  # due to simplification
-                assert a.operand2.value != 1  # due to simplification
-                return True
-        if op.is_division:
-            if a.operand1 == b and isinstance(a.operand2, HplLiteral):
-                assert a.operand2.value != 0  # due to simplification
-                assert a.operand2.value != 1  # due to simplification
-                return True
-        if op.is_power:
-            if a.operand1 == b and isinstance(a.operand2, HplLiteral):
-                assert a.operand2.value != 0  # due to simplification
-                assert a.operand2.value != 1  # due to simplification
-                return True
+        # `x * c`, `x / c` and `x ** c` are not always different from `x`:
+        # they have the same value for x = 0 (or x = 1)
     return False
 
 
